@@ -74,7 +74,7 @@ def check(solver_asserts, timeout_ms=60000):
 # ---- RX-lang: Python regular expression (re._parser AST) -> z3 regular expression ---------------------------
 
 def re_to_z3(pattern, flags=0):
-    """translate a Python regex (as text) into a z3 RegEx over strings; raises Untranslatable for constructs
+    """translate a Python regex (as text, or as an already parsed re._parser node list) into a z3 RegEx over strings; raises Untranslatable for constructs
     outside the supported subset (look-around, back-references, anchors inside, ...)"""
     import re
     try:
@@ -83,7 +83,7 @@ def re_to_z3(pattern, flags=0):
     except ImportError:            # Python < 3.11
         import sre_parse
         import sre_constants as sre
-    tree = sre_parse.parse(pattern, flags)
+    tree = pattern if not isinstance(pattern, str) else sre_parse.parse(pattern, flags)
     dotall = bool(flags & re.DOTALL)
     S = z3.StringSort()
     RS = z3.ReSort(S)
@@ -161,3 +161,25 @@ def rule_pattern(lexer_cls, rule):
     """the pattern text of a t_* rule of the real lexer class (docstring of the function or string attribute)"""
     r = getattr(lexer_cls, rule)
     return r if isinstance(r, str) else r.__doc__
+
+
+def master_rules(plylexer, state='INITIAL'):
+    """ordered (rule name, parsed node list) of the master regex ply built for a lexer state"""
+    try:
+        import re._parser as sre_parse
+        import re._constants as sre
+    except ImportError:
+        import sre_parse
+        import sre_constants as sre
+    out = []
+    for cre, names in plylexer.lexstatere[state]:
+        pat = getattr(cre, 'pattern')
+        tree = sre_parse.parse(pat, cre.flags)
+        top = list(tree)
+        alts = top[0][1][1] if (len(top) == 1 and top[0][0] is sre.BRANCH) else [top]
+        byid = dict((v, k) for k, v in cre.groupindex.items()) if hasattr(cre, 'groupindex') else {}
+        for alt in alts:
+            alt = list(alt)
+            gid = alt[0][1][0]
+            out.append((byid.get(gid, 'group%s' % gid), list(alt[0][1][3]), cre.flags))
+    return out
